@@ -1,0 +1,322 @@
+//go:build verif
+
+// Contracts for the fvc verification-condition generator in /verif (comment-only file).
+// C09: content negotiation picks the offer RFC 9110 preference order dictates.
+
+package fiber
+
+//@ props C09
+
+// before(x, y): range x is strictly preferred to range y (quality desc, specificity desc, #params desc, position asc).
+//@ macro before(x, y) = x.quality > y.quality ||
+//@ ..  (x.quality == y.quality && (x.specificity > y.specificity ||
+//@ ..  (x.specificity == y.specificity && (len(x.params) > len(y.params) ||
+//@ ..  (len(x.params) == len(y.params) && x.order < y.order)))))
+
+// sortedTo(at, n): at[0:n] is pairwise in preference order (no later element is strictly preferred to an earlier one).
+//@ macro sortedTo(at, n) = forall(a, 0, n, forall(b, a + 1, n, !before(at[b], at[a])))
+
+// A range is identified by its position in the header (order; distinct for distinct list elements).
+// wasAt(at, j, k): at[j] now holds the range that was at[k] on entry (position, specificity, text, parameters);
+// qualityKept: and every range keeps its quality.
+//@ macro wasAt(at, j, k) = at[j].order == old(at[k].order) && at[j].specificity == old(at[k].specificity) && at[j].spec == old(at[k].spec) && at[j].params == old(at[k].params)
+// noneLost: every range the list held on entry is still in it. (The list keeps its length and positions are
+// distinct, so no range is duplicated or invented either - that counting step is not machine-checked.)
+// same(k) is k (the axiom is its definition). Writing at[same(k)] makes same(k) the only E-matching trigger of the
+// outer quantifier: a quantifier triggered on at[k] would re-trigger itself on the witness j.
+//@ fn same(k int) int
+//@ axiom same-is-identity: forallI(k, same(k) == k)
+// (`!forall(j, .., !P)` is `exists(j, .., P)` written so that the solver gets an explicit trigger for j.)
+//@ macro noneLost(at) = forall(k, 0, len(at), !forall(j, 0, len(at), !wasAt(at, j, same(k))))
+//@ macro qualityKept(at) = forall(j, 0, len(at), forall(k, 0, len(at), at[j].order == old(at[k].order) ==> at[j].quality == old(at[k].quality)))
+// (a consequence of the two above, stated separately because it is what getOffer needs and needs no witness)
+//@ macro noZeroKept(at) = old(forall(k, 0, len(at), at[k].quality != 0)) ==> forall(k, 0, len(at), at[k].quality != 0)
+//@ macro distinctPositions(at) = forall(a, 0, len(at), forall(b, a + 1, len(at), at[a].order != at[b].order))
+
+//@ func sortAcceptedTypes
+//@   requires distinct-positions: distinctPositions(at)
+//@   modifies elems(at)
+//@   loop 1
+//@     invariant none-lost: noneLost(at)
+//@     invariant quality-kept: qualityKept(at)
+//@     invariant no-q-zero-kept: noZeroKept(at)
+//@     invariant i-range: 1 <= i
+//@     invariant sorted-prefix: sortedTo(at, i)
+//@     decreases len(at) - i
+//@   loop 2
+//@     invariant lo-hi: 0 <= lo && lo <= hi + 1 && hi < i && i < len(at)
+//@     invariant sorted-prefix: sortedTo(at, i)
+//@     invariant left-not-after: forall(k, 0, lo, !before(at[i], at[k]))
+//@     invariant right-not-before: forall(k, hi + 1, i, !before(at[k], at[i]))
+//@     decreases hi - lo + 1
+//@   loop 3
+//@     invariant none-lost: noneLost(at)
+//@     invariant quality-kept: qualityKept(at)
+//@     invariant no-q-zero-kept: noZeroKept(at)
+//@     invariant j-range: 0 <= lo && lo <= j && j <= i && i < len(at)
+//@     invariant sorted-but-j: forall(a, 0, i + 1, forall(b, a + 1, i + 1, a != j && b != j ==> !before(at[b], at[a])))
+//@     invariant left-not-after: forall(k, 0, lo, !before(at[j], at[k]))
+//@     invariant mid-not-before: forall(k, lo, j, !before(at[k], at[j]))
+//@     invariant right-not-before: forall(k, j + 1, i + 1, !before(at[k], at[j]))
+//@     decreases j
+//@   ensures sorted: sortedTo(at, len(at))
+//@   ensures none-lost: noneLost(at)
+//@   ensures quality-kept: qualityKept(at)
+//@   ensures no-q-zero-kept: noZeroKept(at)
+
+// ---- which offers a range accepts -----------------------------------------------------------------
+
+// Charset / encoding / language ranges: "*" accepts every offer; any other range accepts the offer it names
+// (tokens are case-insensitive), a language range also the tags it is a prefix of ("en" accepts "en-US").
+//@ macro tokenMatch(rng, offer) = lower(rng) == lower(offer) || (len(offer) > len(rng) && lower(offer[:len(rng)]) == lower(rng) && offer[len(rng)] == '-')
+
+//@ func acceptsOffer
+//@   pure
+//@   ensures wildcard-accepts-any: spec == "*" ==> result
+//@   ensures named-offer-accepted: spec == offer ==> result
+//@   ensures named-offer-accepted-any-case: lower(spec) == lower(offer) ==> result
+//@   ensures only-wildcard-or-named-offer: result ==> spec == "*" || tokenMatch(spec, offer)
+
+// paramsOK(p, offerParams, ep): what paramsMatch answers for the range parameters p (a map) and the offer's
+// parameter string. The property: it answers true only if every parameter of the range occurs in the offer with
+// an equal value, names and values compared case-insensitively (hasParamKV, hpSubject: mw_C09.spec).
+//@ fn paramsOK(p ref, offerParams string, ep int) bool
+
+// (Frame: its only heap writes are to the bool cells it allocates for the closure; the frame check cannot see
+// through the loop that they are new, so the frame is stated as "bool cells".)
+//@ func paramsMatch
+//@   modifies heap(C_bool), hpSubject
+//@   defines result == paramsOK(specParamStr, offerParams, epoch)
+//@   ensures range-without-params-matches: len(specParamStr) == 0 ==> result
+//@   ensures all-range-params-present-in-offer: result && len(specParamStr) > 0 ==> forallS(k, indom(specParamStr, k) ==> hasParamKV(offerParams, lower(k), lower(str(specParamStr[k]))))
+//@   loop 1
+//@     invariant all-matched-so-far: allSpecParamsMatch
+//@     invariant seen-params-present: forallS(k, seen(k) ==> hasParamKV(offerParams, lower(k), lower(str(specParamStr[k]))))
+
+// The visitor closure: stops at the first parameter of the offer whose name equals the range parameter's name,
+// records that it was found and whether the values are equal.
+//@ func paramsMatch$1
+//@   requires called-with-a-parameter-of-the-visited-string: hasParamKV(hpSubject, lower(str(key)), lower(str(value)))
+//@   preserves found-and-equal-means-present: foundParam && allSpecParamsMatch ==> hasParamKV(hpSubject, lower(specParam), lower(str(specVal)))
+//@   ensures stops-at-first-same-name: result <==> lower(specParam) != lower(str(key))
+//@   ensures found-iff-same-name: foundParam <==> (old(foundParam) || lower(specParam) == lower(str(key)))
+//@   ensures value-compared: lower(specParam) == lower(str(key)) ==> (allSpecParamsMatch <==> lower(str(specVal)) == lower(str(value)))
+//@   ensures other-names-ignored: lower(specParam) != lower(str(key)) ==> allSpecParamsMatch == old(allSpecParamsMatch)
+
+// Media ranges. An offer is "type/subtype" or an extension, optionally followed by ";"-separated parameters.
+//@ macro noSemi(o) = forall(k, 0, len(o), o[k] != ';')
+// paramsAt(o, i): the offer's parameters start at i (its first ';').
+//@ macro paramsAt(o, i) = 0 <= i && i < len(o) && o[i] == ';' && forall(k, 0, i, o[k] != ';')
+// isMime(o, m): m is the media type the offer o (without parameters) stands for: o itself if it has a slash,
+// the type registered for the extension o otherwise.
+//@ macro isMime(o, m) = (hasSlash(o) && m == o) || (!hasSlash(o) && m == mimeOf(o))
+// typeWild(rng, m): rng is "type/*" and m is "type/subtype" with the same type; covers: the range covers the type.
+// Media types are case-insensitive (RFC 9110 8.3.1): coversFold is the relation the property means, covers
+// (byte-wise equal names) the part of it that does not depend on case.
+//@ macro typeWild(rng, m) = exists(s, 0, len(m), m[s] == '/' && forall(k, 0, s, m[k] != '/') && len(rng) == s + 2 && rng[:s] == m[:s] && rng[s:] == "/*")
+//@ macro typeWildFold(rng, m) = exists(s, 0, len(m), m[s] == '/' && forall(k, 0, s, m[k] != '/') && len(rng) == s + 2 && lower(rng[:s]) == lower(m[:s]) && rng[s:] == "/*")
+//@ macro covers(rng, m) = rng == "*/*" || rng == m || typeWild(rng, m)
+//@ macro coversFold(rng, m) = rng == "*/*" || lower(rng) == lower(m) || typeWildFold(rng, m)
+//@ macro isWildOffer(m) = len(m) >= 2 && m[len(m)-2:] == "/*"
+
+// A range accepts an offer iff it covers the offer's media type and all its parameters are present in the offer.
+// (An offer that itself is "type/*" is not a media type or extension; the clauses leave it open.)
+//@ func acceptsOfferType
+//@   modifies heap(C_bool), hpSubject
+//@   requires offer-names-a-type: len(offerType) > 0 && offerType[0] != ';'
+//@   ensures plain-offer-accepted-only-if-covered: noSemi(offerType) ==> forallS(m, isMime(offerType, m) && !isWildOffer(m) && result ==> coversFold(spec, m) && paramsOK(specParams, "", epoch))
+//@   ensures plain-offer-covered-is-accepted: noSemi(offerType) ==> forallS(m, isMime(offerType, m) && covers(spec, m) && paramsOK(specParams, "", epoch) ==> result)
+//@   ensures plain-offer-covered-any-case-is-accepted: noSemi(offerType) ==> forallS(m, isMime(offerType, m) && coversFold(spec, m) && paramsOK(specParams, "", epoch) ==> result)
+//@   ensures offer-with-params-accepted-only-if-covered-and-params-present: forallI(i, paramsAt(offerType, i) ==> forallS(m, isMime(offerType[:i], m) && !isWildOffer(m) && result ==>
+//@ ..   coversFold(spec, m) && paramsOK(specParams, offerType[i:], epoch)))
+//@   ensures offer-with-params-covered-is-accepted: forallI(i, paramsAt(offerType, i) ==> forallS(m, isMime(offerType[:i], m) && covers(spec, m) && paramsOK(specParams, offerType[i:], epoch) ==> result))
+
+// ---- splitting the header into ranges ------------------------------------------------------------------
+
+// qstate(s, n): state of the RFC 9110 quoted-string scanner after the first n bytes of s:
+// 0 outside a quoted string, 1 inside, 2 inside and the next byte is escaped (quoted-pair).
+//@ recfn qstate(s string, n int) int = ite(n <= 0, 0, ite(qstate(s, n - 1) == 0, ite(s[n-1] == '"', 1, 0),
+//@ ..  ite(qstate(s, n - 1) == 2, 1, ite(s[n-1] == '\\', 2, ite(s[n-1] == '"', 0, 1)))))
+
+// forEachMediaRange calls functor for each element of the comma-separated list; a comma inside a quoted
+// string does not separate elements. (functor may rewrite the bytes it is given.)
+// cur(): the rest of the header at the start of the current element, leading spaces removed (the variable `header`
+// after its re-assignment; the name `header` itself denotes the parameter's entry value in contracts).
+//@ macro cur() = last(@utils.TrimLeft)
+// Frame: forEachMediaRange itself writes nothing; what functor does beyond rewriting the bytes it is given is
+// accounted for at the call site (callsback: the write set and the `preserves` clauses of the closure passed).
+//@ func param functor assumed
+//@   modifies elems(arg0)
+// (heap(E_uint8) = "byte arrays": the frame check cannot carry "only header's array" through the loop.)
+//@ func forEachMediaRange
+//@   props C09 C07
+//@   callsback
+//@   modifies heap(E_uint8)
+//@   atcall param functor: piece-of-header: 0 <= n && n <= len(cur())
+//@   atcall param functor: ends-at-comma-or-end: n == len(cur()) || cur()[n] == ','
+//@   atcall param functor: no-comma-inside-unquoted: !hasDQuote ==> forall(k, 0, n, cur()[k] != ',')
+//@   atcall param functor: [C09] splits-only-outside-quotes: hasDQuote ==> (n == len(cur()) || qstate(str(cur()), n) == 0) && forall(k, 0, n, cur()[k] == ',' ==> qstate(str(cur()), k) != 0)
+//@   loop 1
+//@     decreases len(header)
+//@   loop 2
+//@     invariant n-range: 0 <= n && n <= len(cur())
+//@     invariant [C09] quotes-track-scanner: quotes >= 0 && (quotes % 2 == 0 <==> qstate(str(cur()), n) == 0)
+//@     invariant [C09] escaping-tracks-scanner: escaping <==> qstate(str(cur()), n) == 2
+//@     invariant [C09] no-split-point-so-far: forall(k, 0, n, cur()[k] == ',' ==> qstate(str(cur()), k) != 0)
+//@     decreases len(cur()) - n
+
+// ---- parsing one range of the header -------------------------------------------------------------
+
+// specificityOf(s): 1 for "*" and "*/*", 2 for "type/*", 3 for "type/subtype", 4 for a token without a slash.
+//@ macro hasSlash(s) = exists(k, 0, len(s), s[k] == '/')
+//@ macro specificityOf(s) = ite((len(s) == 1 && s[0] == '*') || s == "*/*", 1, ite(len(s) >= 2 && s[len(s)-2:] == "/*", 2, ite(hasByte(s, '/'), 3, 4)))
+
+// The closure getOffer hands to forEachMediaRange: called once per comma-separated element, in header order.
+// `preserves`: what holds of the list of parsed ranges between two calls (and therefore when the header is done).
+//@ func getOffer$1
+//@   props C09 C07
+//@   preserves counter-nonneg: order >= 0
+//@   preserves no-q-zero-listed: forall(k, 0, len(acceptedTypes), acceptedTypes[k].quality != 0)
+//@   preserves positions-counted: forall(k, 0, len(acceptedTypes), 1 <= acceptedTypes[k].order && acceptedTypes[k].order <= order)
+//@   preserves positions-increase: forall(a, 0, len(acceptedTypes), forall(b, a + 1, len(acceptedTypes), acceptedTypes[a].order < acceptedTypes[b].order))
+//@   preserves all-classified: forall(k, 0, len(acceptedTypes), acceptedTypes[k].specificity == specificityOf(acceptedTypes[k].spec))
+//@   ensures position-counted: order == old(order) + 1
+//@   ensures at-most-one-appended: len(acceptedTypes) == old(len(acceptedTypes)) || len(acceptedTypes) == old(len(acceptedTypes)) + 1
+//@   ensures earlier-kept: forall(k, 0, old(len(acceptedTypes)), acceptedTypes[k].quality == old(acceptedTypes[k].quality) && acceptedTypes[k].order == old(acceptedTypes[k].order) &&
+//@ ..   acceptedTypes[k].specificity == old(acceptedTypes[k].specificity) && acceptedTypes[k].spec == old(acceptedTypes[k].spec) && acceptedTypes[k].params == old(acceptedTypes[k].params))
+//@   ensures listed-params-not-released-to-the-pool: len(acceptedTypes) == old(len(acceptedTypes)) + 1 ==> !called(@sync.(*Pool).Put)
+//@   ensures q-zero-never-listed: len(acceptedTypes) == old(len(acceptedTypes)) + 1 ==> acceptedTypes[old(len(acceptedTypes))].quality != 0
+//@   ensures listed-at-its-position: len(acceptedTypes) == old(len(acceptedTypes)) + 1 ==> acceptedTypes[old(len(acceptedTypes))].order == order
+//@   atcall @fasthttp.ParseUfloat: q-value-is-what-follows-q-equals: 0 <= i && i + 3 <= len(accept) && str(accept)[i:i+3] == ";q=" && str(buf) == str(accept)[i+3:]
+//@   atcall @utils.UnsafeString: classified-before-listing: specificity == specificityOf(str(b))
+//@   ensures listed-text-is-trimmed-range: len(acceptedTypes) == old(len(acceptedTypes)) + 1 ==> acceptedTypes[old(len(acceptedTypes))].spec == last(@utils.UnsafeString)
+//@   ensures listed-specificity-of-text: len(acceptedTypes) == old(len(acceptedTypes)) + 1 ==> acceptedTypes[old(len(acceptedTypes))].specificity == specificityOf(last(@utils.UnsafeString))
+//@   ensures specificity-classified: len(acceptedTypes) == old(len(acceptedTypes)) + 1 ==> acceptedTypes[old(len(acceptedTypes))].specificity == specificityOf(acceptedTypes[old(len(acceptedTypes))].spec)
+//@   ensures plain-range-listed-with-q1: old(forall(k, 0, len(accept), accept[k] != ';')) ==> len(acceptedTypes) == old(len(acceptedTypes)) + 1 &&
+//@ ..   acceptedTypes[old(len(acceptedTypes))].quality == 1 && acceptedTypes[old(len(acceptedTypes))].params == nil && acceptedTypes[old(len(acceptedTypes))].spec == trimmed(old(str(accept)), ' ')
+
+// The visitor of a range's parameters (slow path): the parameter q sets the quality (if it parses) and ends the
+// visit - what follows q is not a media-type parameter; every other parameter is recorded under its lower-cased name.
+//@ macro isQ(key) = len(key) == 1 && key[0] == 'q'
+//@ func getOffer$1$1
+//@   props C09 C07
+//@   requires params-map-from-the-pool: params != nil
+//@   atcall @fasthttp.ParseUfloat: q-value-is-the-value-of-q: isQ(key) && buf == value
+//@   ensures q-ends-the-visit: old(isQ(key)) <==> !result
+//@   ensures q-sets-quality-or-keeps-it: old(isQ(key)) ==> quality == old(quality) || quality == ufloat(old(str(value)))
+//@   ensures other-parameters-keep-quality: !old(isQ(key)) ==> quality == old(quality)
+//@   ensures other-parameters-recorded-lower-case: !old(isQ(key)) ==> indom(params, lower(old(str(key))))
+
+// ---- selecting the offer ---------------------------------------------------------------------------
+
+// accepted(f, spec, offer, params, ep): what the matcher f (acceptsOffer or acceptsOfferType) answers.
+//@ fn accepted(f ref, spec string, offer string, params ref, ep int) bool
+//@ func param isAccepted assumed pure
+//@   defines result == accepted(fnvalue, arg0, arg1, arg2, epoch)
+
+//@ macro rejectsAll(f, rng, offers) = forall(j, 0, len(offers), offers[j] == "" || !accepted(f, rng.spec, offers[j], rng.params, epochNow))
+
+// Frame: the byte arrays of the header (parameter names are lower-cased in place), the list of parsed ranges and
+// the pooled parameter maps; in particular not the offers.
+//@ func getOffer
+//@   props C09 C07
+//@   modifies heap(E_uint8), acceptedType.params, acceptedType.spec, acceptedType.quality, acceptedType.specificity, acceptedType.order, heap(MD_string_LJuint8), heap(MV_string_LJuint8), hpSubject
+//@   ensures no-offers-nothing: len(offers) == 0 ==> result == ""
+//@   ensures absent-header-first-offer: len(offers) > 0 && len(header) == 0 ==> result == offers[0]
+//@   ensures one-of-the-offers-or-nothing: result == "" || exists(j, 0, len(offers), result == offers[j])
+//@   ensures chosen-offer-accepted-by-a-range: len(header) > 0 && result != "" ==> existsS(s, existsI(p, accepted(isAccepted, s, result, p, epochNow)))
+//@   atcall sortAcceptedTypes: sorts-all-ranges: len(at) == len(acceptedTypes) && len(at) > 1
+//@   atcall param isAccepted: q-zero-range-never-consulted: acceptedType.quality != 0
+//@   atcall param isAccepted: ranges-in-preference-order: sortedTo(acceptedTypes, len(acceptedTypes))
+//@   atcall param isAccepted: consults-current-range: spec == acceptedType.spec && specParams == acceptedType.params && offer != ""
+//@   loop 1
+//@     invariant ranges-in-preference-order: sortedTo(acceptedTypes, len(acceptedTypes))
+//@     invariant no-q-zero: forall(k, 0, len(acceptedTypes), acceptedTypes[k].quality != 0)
+//@     invariant better-ranges-accept-no-offer: forall(r, 0, rangeindex + 1, rejectsAll(isAccepted, acceptedTypes[r], offers))
+//@   loop 2
+//@     invariant earlier-offers-not-accepted: forall(j, 0, rangeindex + 1, offers[j] == "" || !accepted(isAccepted, acceptedType.spec, offers[j], acceptedType.params, epochNow))
+
+// ---- the four negotiators of the request context ------------------------------------------------------
+// Each negotiates its own request header with the matcher of its kind over the offers given, so it returns
+// one of the offers or nothing; an absent (empty) header selects the first offer.
+//@ macro hdr(c, name) = hdrPeek(c.fasthttp.Request.Header, name, epoch)
+//@ macro oneOfOrNothing(result, offers) = result == "" || exists(j, 0, len(offers), result == offers[j])
+
+//@ func (*DefaultCtx).Accepts
+//@   modifies heap(E_uint8), acceptedType.params, acceptedType.spec, acceptedType.quality, acceptedType.specificity, acceptedType.order, heap(MD_string_LJuint8), heap(MV_string_LJuint8), hpSubject
+//@   atcall getOffer: negotiates-accept-with-media-type-matcher: str(header) == hdr(c, "Accept") && isAccepted == acceptsOfferType
+//@   ensures no-offers-nothing: len(offers) == 0 ==> result == ""
+//@   ensures absent-header-first-offer: len(offers) > 0 && hdr(c, "Accept") == "" ==> result == offers[0]
+//@   ensures one-of-the-offers-or-nothing: oneOfOrNothing(result, offers)
+
+//@ func (*DefaultCtx).AcceptsCharsets
+//@   modifies heap(E_uint8), acceptedType.params, acceptedType.spec, acceptedType.quality, acceptedType.specificity, acceptedType.order, heap(MD_string_LJuint8), heap(MV_string_LJuint8), hpSubject
+//@   atcall getOffer: negotiates-accept-charset-with-token-matcher: str(header) == hdr(c, "Accept-Charset") && isAccepted == acceptsOffer
+//@   ensures no-offers-nothing: len(offers) == 0 ==> result == ""
+//@   ensures absent-header-first-offer: len(offers) > 0 && hdr(c, "Accept-Charset") == "" ==> result == offers[0]
+//@   ensures one-of-the-offers-or-nothing: oneOfOrNothing(result, offers)
+
+//@ func (*DefaultCtx).AcceptsEncodings
+//@   modifies heap(E_uint8), acceptedType.params, acceptedType.spec, acceptedType.quality, acceptedType.specificity, acceptedType.order, heap(MD_string_LJuint8), heap(MV_string_LJuint8), hpSubject
+//@   atcall getOffer: negotiates-accept-encoding-with-token-matcher: str(header) == hdr(c, "Accept-Encoding") && isAccepted == acceptsOffer
+//@   ensures no-offers-nothing: len(offers) == 0 ==> result == ""
+//@   ensures absent-header-first-offer: len(offers) > 0 && hdr(c, "Accept-Encoding") == "" ==> result == offers[0]
+//@   ensures one-of-the-offers-or-nothing: oneOfOrNothing(result, offers)
+
+//@ func (*DefaultCtx).AcceptsLanguages
+//@   modifies heap(E_uint8), acceptedType.params, acceptedType.spec, acceptedType.quality, acceptedType.specificity, acceptedType.order, heap(MD_string_LJuint8), heap(MV_string_LJuint8), hpSubject
+//@   atcall getOffer: negotiates-accept-language-with-token-matcher: str(header) == hdr(c, "Accept-Language") && isAccepted == acceptsOffer
+//@   ensures no-offers-nothing: len(offers) == 0 ==> result == ""
+//@   ensures absent-header-first-offer: len(offers) > 0 && hdr(c, "Accept-Language") == "" ==> result == offers[0]
+//@   ensures one-of-the-offers-or-nothing: oneOfOrNothing(result, offers)
+
+// ---- Format / AutoFormat ---------------------------------------------------------------------------------
+// A handler given to Format may do anything to the heap.
+//@ func ResFmt.Handler assumed
+//@   modifies heap
+
+// Format: Vary: Accept is always added; without an Accept header the first handler runs; otherwise the media
+// types of the non-default handlers are offered to Accepts and the handler whose type was chosen runs, the
+// default handler (or 406) if nothing is acceptable. acceptHdr(): the Accept header as Format read it.
+// lastDefault(hs, n, k): hs[k] is the last "default" entry among hs[0:n] (the one that counts).
+//@ macro lastDefault(hs, n, k) = hs[k].MediaType == "default" && forall(m, k + 1, n, hs[m].MediaType != "default")
+//@ macro acceptHdr() = last((*DefaultCtx).Get)
+//@ macro chosen() = last((*DefaultCtx).Accepts)
+// (handlers[same(k)] in the "every handler type is offered" clauses: trigger discipline as in noneLost above - the
+// two forall-exists facts about types/handlers would otherwise instantiate each other without end.)
+//@ func (*DefaultCtx).Format
+//@   requires media-types-one-line: forall(k, 0, len(handlers), noCRLF(handlers[k].MediaType))
+//@   ensures no-handlers-error: len(handlers) == 0 ==> result == ErrNoHandlers
+//@   ensures vary-accept-always: len(handlers) > 0 ==> called((*DefaultCtx).Vary)
+//@   atcall (*DefaultCtx).Vary: vary-accept: len(fields) == 1 && fields[0] == "Accept"
+//@   atcall (*DefaultCtx).Get: reads-accept: key == "Accept" && len(defaultValue) == 0
+//@   atcall (*DefaultCtx).Accepts: only-with-accept-header: acceptHdr() != ""
+//@   atcall (*DefaultCtx).Accepts: offers-are-handler-types: forall(t, 0, len(offers), offers[t] != "default" && exists(k, 0, len(handlers), handlers[k].MediaType == offers[t]))
+//@   atcall (*DefaultCtx).Accepts: every-handler-type-offered: forall(k, 0, len(handlers), handlers[same(k)].MediaType != "default" ==> exists(t, 0, len(offers), offers[t] == handlers[same(k)].MediaType))
+//@   atcall ResFmt.Handler: first-handler-without-header-else-negotiated-type-else-default: (!called((*DefaultCtx).Accepts) && acceptHdr() == "" && fnvalue == handlers[0].Handler) ||
+//@ ..   (called((*DefaultCtx).Accepts) && chosen() != "" && exists(k, 0, len(handlers), handlers[k].MediaType == chosen() && handlers[k].Handler == fnvalue && forall(m, 0, k, handlers[m].MediaType != chosen()))) ||
+//@ ..   (called((*DefaultCtx).Accepts) && chosen() == "" && exists(k, 0, len(handlers), handlers[k].MediaType == "default" && handlers[k].Handler == fnvalue))
+//@   atcall (*DefaultCtx).SendStatus: not-acceptable-without-default: status == StatusNotAcceptable && called((*DefaultCtx).Accepts) && chosen() == "" &&
+//@ ..   forall(k, 0, len(handlers), lastDefault(handlers, len(handlers), k) ==> handlers[k].Handler == nil)
+//@   atcall @fmt.Errorf: chosen-type-always-has-a-handler: false
+//@   loop 1
+//@     invariant index-range: rangeindex + 1 <= len(handlers)
+//@     invariant media-types-one-line: forall(k, 0, len(handlers), noCRLF(handlers[k].MediaType))
+//@     invariant offers-are-handler-types: forall(t, 0, len(types), types[t] != "default" && exists(k, 0, rangeindex + 1, handlers[k].MediaType == types[t]))
+//@     invariant seen-handler-types-offered: forall(k, 0, rangeindex + 1, handlers[same(k)].MediaType != "default" ==> exists(t, 0, len(types), types[t] == handlers[same(k)].MediaType))
+//@     invariant default-is-last-default-seen: forall(k, 0, rangeindex + 1, lastDefault(handlers, rangeindex + 1, k) ==> defaultHandler == handlers[k].Handler)
+//@     invariant default-is-a-default-handler: defaultHandler != nil ==> exists(k, 0, rangeindex + 1, handlers[k].MediaType == "default" && handlers[k].Handler == defaultHandler)
+//@   loop 2
+//@     invariant index-range: rangeindex + 1 <= len(handlers)
+//@     invariant media-types-one-line: forall(k, 0, len(handlers), noCRLF(handlers[k].MediaType))
+//@     invariant chosen-type-has-a-handler: exists(k, 0, len(handlers), handlers[k].MediaType == accept)
+//@     invariant not-found-so-far: forall(k, 0, rangeindex + 1, handlers[k].MediaType != accept)
+
+// AutoFormat negotiates among html, json, txt, xml (in this order), sets the content type to the result and
+// renders accordingly; nothing acceptable renders plain text.
+//@ func (*DefaultCtx).AutoFormat
+//@   atcall (*DefaultCtx).Accepts: offers-html-json-txt-xml: len(offers) == 4 && offers[0] == "html" && offers[1] == "json" && offers[2] == "txt" && offers[3] == "xml"
+//@   atcall (*DefaultCtx).Type: type-is-negotiated-format: extension == chosen()
+//@   atcall (*DefaultCtx).JSON: json-when-negotiated: chosen() == "json"
+//@   atcall (*DefaultCtx).XML: xml-when-negotiated: chosen() == "xml"
+//@   atcall (*DefaultCtx).SendString: text-otherwise: chosen() != "json" && chosen() != "xml"
